@@ -528,6 +528,25 @@ func c09Eval(c *fw.Ctx, data any) {
 	if m.K == "ethernet" || m.K == "ipv4" || m.K == "ipv6" {
 		c.Set("chains", chainOf(m))
 	}
+	// the opaque payload type (what every header falls back to for a protocol it has no decoder for): decoding into
+	// a buffer that held other bytes before gives exactly the new bytes, and the input may be reused afterwards
+	if c.Index%5 == 0 {
+		r := prng.Derive(c.Seed, 910, uint64(c.Index))
+		a, b := r.Bytes(r.Pick(0, 1, 7, 60, 300)), r.Bytes(r.Pick(0, 1, 8, 61, 200))
+		want := append([]byte(nil), b...)
+		var ub util.Buffer
+		p, pv, st := fw.Recover(func() {
+			ub.UnmarshalBinary(a)
+			ub.UnmarshalBinary(b)
+			scribble(b)
+		})
+		c.Count("opaque_payloads_decoded_into_used_buffers", 1)
+		if p {
+			c.Violation("raw", "panic", "used-value:"+fw.LibFrame(st), pv)
+		} else if got, _ := ub.MarshalBinary(); !bytes.Equal(got, want) || int(ub.Len()) != len(want) {
+			c.Violation("raw", "field", "used-value:data", fmt.Sprintf("%d bytes decoded into a util.Buffer that held %d other bytes before: it now holds %d bytes (Len() %d): %s, want %s", len(want), len(a), len(got), ub.Len(), hexHead(got), hexHead(want)))
+		}
+	}
 	if c09Check(c, m, "") {
 		c.Count("roundtrip_ok", 1)
 		if c.WantSample() && nt && c.Index%11 == 0 {
